@@ -10,6 +10,12 @@ const (
 )
 
 var registry = []*HarnessSpec{
+	{Prop: "C07", Name: "zzH09b", Pkg: pkgCorerad, Tier: "quick", NoNative: true, Bounds: "Listen + handle over a scripted socket: a valid RS from any IPv6 source or ::, with or without the zone the socket layer attaches"},
+	{Prop: "C07", Name: "zzH06", Pkg: pkgCorerad, Tier: "quick", MonoTime: true, NoNative: true, Params: map[string]int{"events": 2, "events@thorough": 3}, Bounds: "scheduler: 2 (3) requests (all-nodes or arbitrary unicast sources, possibly repeated) at arbitrary instants: one task per solicitation, delay in [0,500ms), each closure sends to its own source"},
+	{Prop: "C09", Name: "zzH09b", Pkg: pkgCorerad, Tier: "quick", NoNative: true, Bounds: "Listen with its real goroutines over a scripted socket: one invalid message (any hop limit != 255) then one valid RS from any IPv6 source or ::, with or without zone; then cancellation"},
+	{Prop: "C10", Name: "zzH10e", Pkg: pkgCorerad, Tier: "quick", NoNative: true, Bounds: "Listen with its real goroutines: non-timeout net.Error, opaque read error, or failing callback"},
+	{Prop: "C06", Name: "zzH06", Pkg: pkgCorerad, Tier: "quick", MonoTime: true, NoNative: true, Params: map[string]int{"events": 2, "events@thorough": 3}, Bounds: "2 (3) requests, each all-nodes or an arbitrary unicast source, at arbitrary non-decreasing monotonic instants (ns); ideal timers (a task runs at registration + delay)"},
+	{Prop: "C10", Name: "zzH10s", Pkg: pkgCorerad, Tier: "quick", MonoTime: true, NoNative: true, Params: map[string]int{"pending": 2}, Bounds: "2 pending RAs (multicast or unicast) whose transmissions all fail"},
 	{Prop: "C03", Name: "zzH03header", Pkg: pkgConfig, Tier: "quick", Bounds: "all header keys symbolic (every shape of default_lifetime; any value of the timers, hop limit, flags, preference) as accepted by the real parser"},
 	{Prop: "C03", Name: "zzH03prefix", Pkg: pkgConfig, Tier: "quick", Bounds: "one static prefix stanza: any accepted IPv6 prefix, both lifetimes of every accepted shape"},
 	{Prop: "C03", Name: "zzH03route", Pkg: pkgConfig, Tier: "quick", Bounds: "one static route stanza: any accepted prefix, lifetime of every accepted shape, preference"},
